@@ -1573,7 +1573,24 @@ fn run_tck(cfg: &Cfg, rep: &mut Report, model: &mut Model, rng: &mut Rng, svc: &
     ("component without value", json!({"model": m.name, "invocable": "E", "input": [{"name": "x", "value": {"simple": null, "list": null, "components": [{"name": "a", "isNil": false}]}}]})),
     ("missing isNil", json!({"model": m.name, "invocable": "E", "input": [{"name": "x", "value": {"simple": {"type": "xsd:string", "text": "a"}}}]})),
     ("input not a list", json!({"model": m.name, "invocable": "E", "input": {"name": "x"}})),
+    // a value that cannot be converted is reported wherever it sits: inside a list, a nested list, a component
+    ("bad decimal in a list", json!({"model": m.name, "invocable": "E", "input": [{"name": "x", "value": {"simple": null, "components": null, "list": {"items": [simple("xsd:decimal", "1"), simple("xsd:decimal", "12abc"), simple("xsd:decimal", "3")], "isNil": false}}}]})),
+    ("unknown type in a list", json!({"model": m.name, "invocable": "E", "input": [{"name": "x", "value": {"simple": null, "components": null, "list": {"items": [simple("xsd:string", "a"), simple("xsd:unknown", "1")], "isNil": false}}}]})),
+    ("bad date in a nested list", json!({"model": m.name, "invocable": "E", "input": [{"name": "x", "value": {"simple": null, "components": null, "list": {"items": [{"simple": null, "components": null, "list": {"items": [simple("xsd:date", "2021-13-45")], "isNil": false}}], "isNil": false}}}]})),
+    ("empty value in a list", json!({"model": m.name, "invocable": "E", "input": [{"name": "x", "value": {"simple": null, "components": null, "list": {"items": [simple("xsd:string", "a"), {"simple": null, "components": null, "list": null}], "isNil": false}}}]})),
+    ("bad decimal in a component", json!({"model": m.name, "invocable": "E", "input": [{"name": "x", "value": {"simple": null, "list": null, "components": [{"name": "a", "value": simple("xsd:decimal", "x1"), "isNil": false}]}}]})),
+    ("bad decimal in a list in a component", json!({"model": m.name, "invocable": "E", "input": [{"name": "x", "value": {"simple": null, "list": null, "components": [{"name": "a", "value": {"simple": null, "components": null, "list": {"items": [simple("xsd:decimal", "x1")], "isNil": false}}, "isNil": false}]}}]})),
   ];
+  {
+    let good = json!({"model": m.name, "invocable": "E", "input": [{"name": "x", "value": {"simple": null, "components": null, "list": {"items": [simple("xsd:decimal", "1"), simple("xsd:decimal", "3")], "isNil": false}}}]}).to_string();
+    if let Ok(a) = http(server.port, "POST", "/tck/evaluate", js, good.as_bytes()) {
+      let text = String::from_utf8_lossy(&a.body).to_string();
+      rep.hit("tck:well-formed list shape");
+      if !matches!(strict_parse(&text), Ok(j) if j.get("data").is_some()) {
+        rep.disagree(Kind::ImplVsSpec, "dto", "a well-formed TCK list is not answered in the data member", &format!("POST /tck/evaluate {}", good), &text, "{\"data\":…}");
+      }
+    }
+  }
   for (ci, ((t, req), ans)) in cases.iter().zip(reqs.iter()).zip(answers.iter()).enumerate() {
     if ci % 23 == 0 {
       let (what, body) = &rejected[(ci / 23) % rejected.len()];
